@@ -67,8 +67,23 @@ def run_one(sc):
             size = rng.choice(sc["sizes"])
             data, w, h = make_image(kind, rng, size)
             p = os.path.join(tmp, "fig%d%s" % (i, rng.choice(SUFFIX[kind])))
-            with open(p, "wb") as f:
-                f.write(data)
+            if c.get("reuse"):
+                # other bytes at the same path first, embedded by an earlier document; then rewritten in place with
+                # the time stamp kept
+                old, _, _ = make_image(kind, random.Random(sc["seed"] + 7919 * i), size + 64)
+                with open(p, "wb") as f:
+                    f.write(old)
+                st = os.stat(p)
+                try:
+                    rtf.RTFDocument(rtf_figure=rtf.RTFFigure(figures=p, fig_width=1.0, fig_height=1.0)).rtf_encode()
+                except Exception:  # noqa
+                    pass
+                with open(p, "wb") as f:
+                    f.write(data)
+                os.utime(p, ns=(st.st_atime_ns, st.st_mtime_ns))
+            else:
+                with open(p, "wb") as f:
+                    f.write(data)
             paths.append(p if rng.random() < 0.5 else __import__("pathlib").Path(p))
             files.append({"fmt": kind, "w": w, "h": h, "len": len(data), "sha": hashlib.sha1(data).hexdigest(),
                           "bytes": list(data) if len(data) <= 512 else []})
